@@ -170,7 +170,8 @@ def log_digest(w):
         h.update(repr(e).encode())
     for v in w.violations:
         h.update(v.sig.encode())
-    h.update(repr(sorted((k, v) for k, v in w.stats.items() if not k.startswith("snap"))).encode())
+    # counters that depend on wall-clock (watchdog re-confirmations) stay out
+    h.update(repr(sorted((k, v) for k, v in w.stats.items() if not k.startswith(("snap", "slow")))).encode())
     return h.hexdigest()[:16]
 
 
@@ -323,8 +324,9 @@ def cross_interpreter(prop, tier, base_seed, n_runs, hashseeds, results_by_idx):
             if a != b:
                 found.append(dict(idx=idx, hashseed=hs, ref=a[:5], other=b[:5]))
             elif ref["log_digest"] != d["digest"]:
-                stats["log_digest_diverged"] += 1
-                found.append(dict(idx=idx, hashseed=hs, digest=(ref["log_digest"], d["digest"])))
+                # same hash values, other events differ: not a C03 matter
+                # (equality and the rest are judged by their own checks)
+                stats["log_digest_diverged_with_equal_hashes"] += 1
     return found, stats
 
 
